@@ -216,6 +216,10 @@ func genNameLabel(rng *rand.Rand) string {
 		l = l + "-"
 	case 3:
 		l = "xn--" + l
+		if rng.IntN(2) == 0 {
+			// the ACE spelling of an all-ASCII label (decodes to the label itself)
+			l += "-"
+		}
 	case 4:
 		l = pick(rng, "ä", "пример", "\xff", "\xc3", "İ", "K", "a\x00b", "a b", "a_b", "٣") + l
 	case 5:
